@@ -27,7 +27,7 @@ OPS = [
     ("op:add3", ". + $a + $b", 2), ("op:mul3", ". * $a * $b", 2), ("op:+=", ".[0] += $a", 1), ("op:-=", ".a -= $a", 1), ("op:*=", ".[] *= $a", 1), ("op:/=", ".[] /= $a", 1),
     ("op:%=", ".[] %= $a", 1), ("op://=", ".[] //= $a", 1), ("op:cmp", "[. < $a, . <= $a, . == $a, . != $a, . >= $a, . > $a]", 1), ("op:alt", ". // $a", 1),
     ("op:andor", "[(. and $a), (. or $a), (. | not)]", 1), ("op:obj", "{(.): $a}", 1), ("op:obj2", "{($a): ., ($b): 1}", 2), ("op:objvar", "{$a, $b}", 2),
-    ("op:arr", "[., $a, $b]", 2), ("op:interp", "\"x\\(.)y\\($a)\"", 1), ("op:destr-arr", ". as [$x, [$y]] | [$x, $y]", 0), ("op:destr-obj", ". as {a: $x, $a: [$y]} | [$x, $y]", 1),
+    ("op:arr", "[., $a, $b]", 2), ("op:interp", "\"x\\(.)y\\($a)\"", 1), ("op:destr-arr", ". as [$x, [$y]] | [$x, $y]", 0), ("op:destr-obj", ". as {a: $x, ($a): [$y]} | [$x, $y]", 1),
     ("op:destr-key", ". as {($a): $x} | $x", 1), ("op:reduce", "reduce .[] as $x ($a; . + $x)", 1),
     ("op:foreach", "foreach .[] as $x ($a; . + $x; [., $x])", 1), ("op:reduce-upd", "reduce $a[]? as $p (.; .[$p] = 1)", 1), ("op:recurse", "[..]", 0), ("op:iter", ".[]", 0),
     ("op:iter?", "[.[]?]", 0), ("op:try", "try error catch .", 0), ("op:try-err", "try error($a) catch .", 1), ("op:label", "label $o | (., $a) | if . == $a then break $o else . end", 1),
@@ -147,7 +147,7 @@ def tame_rule(p):
             ns = [abs(num_of(v)) for v in vals if num_of(v) is not None and not (isinstance(num_of(v), float))]
             if s and ns:
                 tot = s * max(ns) * (s if label == "op:mul3" else 1)
-                return tot <= (1 << 22) or tot >= (1 << 63)
+                return tot <= (1 << 17) or tot >= (1 << 63)
             return True
         return ok
     if name in ("jn", "yn"):
@@ -157,6 +157,14 @@ def tame_rule(p):
             if n is None or isinstance(n, float) or abs(n) <= (1 << 20):
                 return True
             return x is not None and (x == 0 or (isinstance(x, float) and (math.isnan(x) or math.isinf(x))))
+        return ok
+    if name == "repeat" and ".[]" in p.funsig:
+        return lambda t: (isinstance(t[0], list) and len(t[0]) > 0) or (isinstance(t[0], Obj) and len(t[0].items) > 0) or not isinstance(t[0], (list, Obj))
+    if label in ("op:*=",):
+        def ok(t):
+            def has_str(v):
+                return isinstance(v, Str) and len(v.b) > 0 or isinstance(v, list) and any(has_str(x) for x in v) or isinstance(v, Obj) and any(has_str(x) for _k, x in v.items)
+            return not (big_count(t[1]) and has_str(t[0])) and not (isinstance(t[1], Str) and len(t[1].b) > 0 and any(big_count(x) for x in (t[0] if isinstance(t[0], list) else [x for _k, x in t[0].items] if isinstance(t[0], Obj) else [])))
         return ok
     if name in ("sub", "gsub") and ("2$" in p.funsig or ".[]" in p.funsig):
         return lambda t: (strlen(t[0]) or 0) <= 12
@@ -195,6 +203,9 @@ def progs_for(natives, defs):
                 combos.append(tuple(c))
         if len(funpos) >= 2:
             combos += [tuple("." for _ in funpos), tuple(".[]" for _ in funpos), tuple("empty" for _ in funpos), tuple("error" for _ in funpos)]
+        if name == "repeat":
+            # `def repeat(f): def rec: f, rec; rec;` never ends without output when f yields nothing
+            combos = [c for c in combos if c[0] != "empty"]
         if name == "until":
             combos = [c for c in combos if (c[1] in ("error", "empty")) or (c[0] in ("error", "empty"))]
             combos += [("$", "error"), (".", "error"), (".[]", "empty"), ("2$", "error")]
